@@ -3299,10 +3299,12 @@ func (bc *Blockchain) GetTestHistoricVM(t trigger.Type, tx *transaction.Transact
 	}
 	var mode = mpt.ModeAll
 	if bc.config.RemoveUntraceableBlocks {
-		if b.Index < bc.BlockHeight()-bc.GetMaxTraceableBlocks() {
+		if mtb := bc.GetMaxTraceableBlocks(); bc.BlockHeight() > mtb && b.Index < bc.BlockHeight()-mtb {
 			return nil, fmt.Errorf("state for height %d is outdated and removed from the storage", b.Index)
 		}
-		mode |= mpt.ModeGCFlag
+		// Nodes are stored with reference counters. GC flag must not be set: nodes of an old
+		// (but still traceable) state are inactive for the latest one, yet they're to be read here.
+		mode |= mpt.ModeLatest
 	}
 	if b.Index < 1 || b.Index > bc.BlockHeight()+1 {
 		return nil, fmt.Errorf("unsupported historic chain's height: requested state for %d, chain height %d", b.Index, bc.blockHeight)
